@@ -329,4 +329,403 @@ pub fn mcopy(""")),
                 if current_transient_data_lifespan == transient_data.transient_data_lifespan =>""",
       new="""            Some(transient_data)
                 if current_transient_data_lifespan.origin == transient_data.transient_data_lifespan.origin =>""", expect=r'load:transient-only-same-lifespan'),
+
+ # ---------------- C15
+ dict(id='C15-fallback-removed', pid=['C15', 'C01'], file='actors/miner/src/lib.rs',
+      old="""            // The reward was taken out of the penalty already paid; if it cannot be delivered, burn it.
+            burn_amount += reward_amount;
+""", new="""""", expect=r'fallback'),
+ dict(id='C15-burn-wrong-component', pid='C15', file='actors/miner/src/lib.rs',
+      old="""        notify_pledge_changed(rt, &total_unlocked.neg())?;
+        burn_funds(rt, burn_amount)?;
+
+        state.check_balance_invariants""",
+      new="""        notify_pledge_changed(rt, &total_unlocked.neg())?;
+        burn_funds(rt, total_unlocked)?;
+        let _ = burn_amount;
+
+        state.check_balance_invariants""", expect=r'burn-what-was-repaid:repay_debt'),
+ dict(id='C15-penalty-not-applied', pid='C15', file='actors/miner/src/lib.rs',
+      old="""            let daily_fee = daily_proof_fee_payable(policy, &result.daily_fee, &day_reward);
+
+            state
+                .apply_penalty(&daily_fee)
+                .map_err(|e| actor_error!(illegal_state, "failed to apply penalty: {}", e))?;""",
+      new="""            let daily_fee = daily_proof_fee_payable(policy, &result.daily_fee, &day_reward);
+            log::debug!("daily fee {}", daily_fee);""", expect=r'penalty-charged:daily_proof_fee_payable'),
+ dict(id='C15-negative-penalty-allowed', pid='C15', file='actors/miner/src/state.rs',
+      old="""        if penalty.is_negative() {
+            Err(anyhow!("applying negative penalty {} not allowed", penalty))
+        } else {
+            self.fee_debt += penalty;
+            Ok(())
+        }""", new="""        self.fee_debt += penalty;
+        Ok(())""", expect=r'apply_penalty:non-negative'),
+ dict(id='C15-debt-gate-dropped-recovery', pid='C15', file='actors/miner/src/lib.rs',
+      old="""            let fee_to_burn = repay_debts_or_abort(rt, state)?;
+
+            let info = get_miner_info(rt.store(), state)?;
+
+            rt.validate_immediate_caller_is(
+                info.control_addresses.iter().chain(&[info.worker, info.owner]),
+            )?;
+
+            if consensus_fault_active(&info, rt.curr_epoch()) {
+                return Err(actor_error!(
+                    forbidden,
+                    "recovery not allowed during active consensus fault"
+                ));
+            }""",
+      new="""            let fee_to_burn = TokenAmount::zero();
+
+            let info = get_miner_info(rt.store(), state)?;
+
+            rt.validate_immediate_caller_is(
+                info.control_addresses.iter().chain(&[info.worker, info.owner]),
+            )?;
+
+            if consensus_fault_active(&info, rt.curr_epoch()) {
+                return Err(actor_error!(
+                    forbidden,
+                    "recovery not allowed during active consensus fault"
+                ));
+            }""", expect=r'debt-gate|burn-what-was-repaid:declare_faults_recovered|callers-present'),
+ dict(id='C15-reward-not-clamped', pid='C15', file='actors/miner/src/lib.rs',
+      old="""            let reward_amount = std::cmp::min(&burn_amount, &slasher_reward).clone();""",
+      new="""            let reward_amount = slasher_reward.clone();""", expect=r'reporter-reward:report_consensus_fault:clamped'),
+ # ---------------- C03
+ dict(id='C03-withdraw-no-notify', pid='C03', file='actors/miner/src/lib.rs',
+      old="""        burn_funds(rt, fee_to_burn)?;
+        notify_pledge_changed(rt, &newly_vested.neg())?;
+
+        state.check_balance_invariants(&rt.current_balance()).map_err(balance_invariants_broken)?;
+        Ok(WithdrawBalanceReturn { amount_withdrawn })""",
+      new="""        burn_funds(rt, fee_to_burn)?;
+        let _ = newly_vested;
+
+        state.check_balance_invariants(&rt.current_balance()).map_err(balance_invariants_broken)?;
+        Ok(WithdrawBalanceReturn { amount_withdrawn })""", expect=r'pledge-total-pairing:WithdrawBalance|notify-site:withdraw_balance'),
+ dict(id='C03-notify-wrong-delta', pid='C03', file='actors/miner/src/lib.rs',
+      old="""        notify_pledge_changed(rt, &total_unlocked.neg())?;
+        burn_funds(rt, burn_amount)?;
+
+        state.check_balance_invariants""",
+      new="""        notify_pledge_changed(rt, &burn_amount.clone().neg())?;
+        burn_funds(rt, burn_amount)?;
+        let _ = total_unlocked;
+
+        state.check_balance_invariants""", expect=r'notify-delta:repay_debt'),
+ dict(id='C03-pledge-sign-guard-dropped', pid='C03', file='actors/miner/src/state.rs',
+      old="""        let new_total = &self.initial_pledge + amount;
+        if new_total.is_negative() {
+            return Err(anyhow!(
+                "negative initial pledge requirement {} after adding {} to prior {}",
+                new_total,
+                amount,
+                self.initial_pledge
+            ));
+        }
+        self.initial_pledge = new_total;""",
+      new="""        let new_total = &self.initial_pledge + amount;
+        self.initial_pledge = new_total;""", expect=r'add_initial_pledge:non-negative'),
+ dict(id='C03-power-claim-unchecked', pid='C03', file='actors/power/src/lib.rs',
+      old="""            st.validate_miner_has_claim(rt.store(), &rt.message().caller())?;
+            st.add_pledge_total(params.pledge_delta);""",
+      new="""            st.add_pledge_total(params.pledge_delta);""", expect=r'power:claim-checked'),
+ # ---------------- C14
+ dict(id='C14-withdraw-to-owner', pid='C14', file='actors/miner/src/lib.rs',
+      old="""            extract_send_result(rt.send_simple(
+                &info.beneficiary,
+                METHOD_SEND,
+                None,
+                amount_withdrawn.clone(),
+            ))?;""",
+      new="""            extract_send_result(rt.send_simple(
+                &info.owner,
+                METHOD_SEND,
+                None,
+                amount_withdrawn.clone(),
+            ))?;""", expect=r'withdraw:recipient'),
+ dict(id='C14-quota-not-charged', pid='C14', file='actors/miner/src/lib.rs',
+      old="""                        info.beneficiary_term.used_quota += amount_withdrawn;""",
+      new="""                        info.beneficiary_term.used_quota = amount_withdrawn.clone();""", expect=r'used-quota'),
+ dict(id='C14-early-terminations-ignored', pid='C14', file='actors/miner/src/lib.rs',
+      old="""                // Ensure we don't have any pending terminations.
+                if !state.early_terminations.is_empty() {""",
+      new="""                // Ensure we don't have any pending terminations.
+                if !state.early_terminations.is_empty() && params.amount_requested.is_zero() {""", expect=r'no-pending-early-terminations'),
+ dict(id='C14-available-ignores-debt', pid='C14', file='actors/miner/src/state.rs',
+      old="""        Ok(self.get_unlocked_balance(actor_balance)? - &self.fee_debt)""",
+      new="""        self.get_unlocked_balance(actor_balance)""", expect=r'available-balance:formula'),
+ dict(id='C14-vest-at-current-epoch', pid='C14', file='actors/miner/src/vesting_state.rs',
+      old="""    iter.peeking_take_while(|fund| fund.epoch < current_epoch).map(|f| f.amount).sum()""",
+      new="""    iter.peeking_take_while(|fund| fund.epoch <= current_epoch).map(|f| f.amount).sum()""", expect=r'take_vested'),
+ dict(id='C14-lock-factor', pid='C14', file='actors/miner/src/monies.rs',
+      old="""const LOCKED_REWARD_FACTOR_NUM: u32 = 3;""", new="""const LOCKED_REWARD_FACTOR_NUM: u32 = 1;""", expect=r'LOCKED_REWARD_FACTOR_NUM'),
+ # ---------------- C06
+ dict(id='C06-lock-total-wrong-field', pid='C06', file='actors/market/src/state.rs',
+      old="""        self.total_provider_locked_collateral += &proposal.provider_collateral;
+        Ok(())""", new="""        self.total_provider_locked_collateral += &proposal.client_collateral;
+        Ok(())""", expect=r'lock:total:total_provider_locked_collateral'),
+ dict(id='C06-unlock-reason-crossed', pid='C06', file='actors/market/src/state.rs',
+      old="""            Reason::ClientStorageFee => {
+                self.total_client_storage_fee -= amount;
+            }""", new="""            Reason::ClientStorageFee => {
+                self.total_client_locked_collateral -= amount;
+            }""", expect=r'unlock:reason:ClientStorageFee'),
+ dict(id='C06-withdraw-floor-dropped', pid=['C06', 'C01'], file='actors/market/src/state.rs',
+      old="""        let min_balance = locked_table.get(addr)?;
+        let ex = escrow_table.subtract_with_minimum(addr, amount, &min_balance)?;""",
+      new="""        let min_balance = TokenAmount::zero();
+        let _ = locked_table.get(addr)?;
+        let ex = escrow_table.subtract_with_minimum(addr, amount, &min_balance)?;""", expect=r'floor'),
+ dict(id='C06-withdraw-to-caller', pid='C06', file='actors/market/src/lib.rs',
+      old="""        extract_send_result(rt.send_simple(
+            &recipient,
+            METHOD_SEND,
+            None,
+            amount_extracted.clone(),
+        ))?;""", new="""        extract_send_result(rt.send_simple(
+            &rt.message().caller(),
+            METHOD_SEND,
+            None,
+            amount_extracted.clone(),
+        ))?;
+        let _ = recipient;""", expect=r'withdraw:recipient'),
+ dict(id='C06-transfer-no-unlock', pid='C06', file='actors/market/src/state.rs',
+      old="""        escrow_table.must_subtract(from_addr, amount)?;
+        self.unlock_balance(store, from_addr, amount, Reason::ClientStorageFee)
+            .context("unlocking client balance")?;
+""", new="""        escrow_table.must_subtract(from_addr, amount)?;
+""", expect=r'transfer:sites|callers-present'),
+ # ---------------- C07
+ dict(id='C07-progress-not-recorded', pid='C07', file='actors/market/src/lib.rs',
+      old="""                } else {
+                    deal_state.last_updated_epoch = curr_epoch;
+                    new_deal_states.push((deal_id, deal_state));
+                }""", new="""                } else {
+                    new_deal_states.push((deal_id, deal_state));
+                }""", expect=r'settle_deal_payments:progress'),
+ dict(id='C07-window-start-ignored', pid='C07', file='actors/market/src/state.rs',
+      old="""        let payment_start_epoch = if ever_updated && state.last_updated_epoch > deal.start_epoch {
+            state.last_updated_epoch
+        } else {
+            deal.start_epoch
+        };""", new="""        let payment_start_epoch = deal.start_epoch;""", expect=r'update:window-start-choice|update:amount'),
+ dict(id='C07-pay-provider-to-client', pid='C07', file='actors/market/src/state.rs',
+      old="""            self.transfer_balance(store, &deal.client, &deal.provider, &elapsed_payment)?;""",
+      new="""            self.transfer_balance(store, &deal.provider, &deal.client, &elapsed_payment)?;""", expect=r'update:payer|update:payee'),
+ dict(id='C07-slash-partial', pid='C07', file='actors/market/src/state.rs',
+      old="""        // slash provider collateral
+        let slashed = proposal.provider_collateral.clone();
+        self.slash_balance(store, &proposal.provider, &slashed, Reason::ProviderCollateral)
+            .context("slashing balance")?;
+
+        Ok(slashed)""", new="""        // slash provider collateral
+        let slashed = proposal.provider_collateral.clone().div_floor(2);
+        self.slash_balance(store, &proposal.provider, &slashed, Reason::ProviderCollateral)
+            .context("slashing balance")?;
+
+        Ok(slashed)""", expect=r'terminate:slash-whole-collateral'),
+ # ---------------- C08
+ dict(id='C08-duplicate-in-message', pid='C08', file='actors/market/src/lib.rs',
+      old="""            if duplicate_in_state || duplicate_in_message {""", new="""            let _ = duplicate_in_message;
+            if duplicate_in_state {""", expect=r'publish:not-in-message'),
+ dict(id='C08-activate-after-start', pid='C08', file='actors/market/src/lib.rs',
+      old="""    if curr_epoch > proposal.start_epoch {
+        return Err(ActorError::unchecked(""", new="""    if curr_epoch > proposal.end_epoch {
+        return Err(ActorError::unchecked(""", expect=r'can-activate:not-after-start'),
+ dict(id='C08-foreign-provider-activation', pid='C08', file='actors/market/src/lib.rs',
+      old="""    if &proposal.provider != miner_addr {
+        return Err(ActorError::forbidden(format!(
+            "proposal has provider {}, must be {}",
+            proposal.provider, miner_addr
+        )));
+    };
+""", new="""""", expect=r'can-activate:own-provider'),
+ dict(id='C08-timeout-keeps-pending', pid='C08', file='actors/market/src/state.rs',
+      old="""                // delete pending deal cid
+                self.remove_pending_deal(store, *dcid)?.ok_or_else(|| {
+                    actor_error!(
+                        illegal_state,
+                        format!(
+                            "failed to delete pending deal {}: cid {} does not exist",
+                            deal_id, dcid
+                        )
+                    )
+                })?;
+""", new="""""", expect=r'timeout:remove_pending_deal'),
+ dict(id='C08-client-cover-not-running', pid='C08', file='actors/market/src/lib.rs',
+      old="""            let mut client_lockup =
+                total_client_lockup.get(&client_id).cloned().unwrap_or_default();
+            client_lockup += deal.proposal.client_balance_requirement();""",
+      new="""            let client_lockup = deal.proposal.client_balance_requirement();""", expect=r'client-cover-running-total'),
+ # ---------------- C09
+ dict(id='C09-claim-not-burnt', pid='C09', file='actors/verifreg/src/lib.rs',
+      old="""        // Burn the datacap tokens from verified registry's own balance.
+        burn(rt, &total_claimed_space)?;""", new="""        let _ = &total_claimed_space;""", expect=r'claim:burn'),
+ dict(id='C09-claim-size-from-request', pid='C09', file='actors/verifreg/src/lib.rs',
+      old="""                                size: alloc.size,
+                                term_min: alloc.term_min,""", new="""                                size: claim.size,
+                                term_min: alloc.term_min,""", expect=r'claim:new-claim.size|claim:burn-amount'),
+ dict(id='C09-expired-check-dropped', pid='C09', file='actors/verifreg/src/lib.rs',
+      old="""        && curr_epoch <= alloc.expiration
+""", new="""""", expect=r'can_claim_alloc:conjunct'),
+ dict(id='C09-grant-cap-not-reduced', pid='C09', file='actors/verifreg/src/lib.rs',
+      old="""            let new_verifier_cap = verifier_cap - &params.allowance;""",
+      new="""            let new_verifier_cap = verifier_cap.clone();""", expect=r'grant:new-cap'),
+ dict(id='C09-hook-amount-ge', pid='C09', file='actors/verifreg/src/lib.rs',
+      old="""        if datacap_total != tokens_as_datacap {""", new="""        if datacap_total > tokens_as_datacap {""", expect=r'hook:amount-matches-requests'),
+ dict(id='C09-refund-to-caller', pid='C09', file='actors/verifreg/src/lib.rs',
+      old="""        transfer(rt, params.client, &recovered_datacap).with_context(|| {""",
+      new="""        transfer(rt, rt.message().caller().id().unwrap(), &recovered_datacap).with_context(|| {""", expect=r'expire:refund-to-client'),
+ # ---------------- C10
+ dict(id='C10-verified-space-from-pieces', pid='C10', file='actors/miner/src/lib.rs',
+      old="""            let mut unverified_space = BigInt::zero();
+            let mut pieces = Vec::new();
+            for piece in *sector_pieces {
+                if piece.verified_allocation_key.is_none() {
+                    unverified_space += piece.size.0;
+                }
+                pieces.push((piece.cid, piece.size.0));
+            }
+            DataActivationOutput {
+                unverified_space: unverified_space.clone(),
+                verified_space: sector_claim.claimed_space.clone(),""",
+      new="""            let mut unverified_space = BigInt::zero();
+            let mut declared_verified = BigInt::zero();
+            let mut pieces = Vec::new();
+            for piece in *sector_pieces {
+                if piece.verified_allocation_key.is_none() {
+                    unverified_space += piece.size.0;
+                } else {
+                    declared_verified += piece.size.0;
+                }
+                pieces.push((piece.cid, piece.size.0));
+            }
+            let _ = sector_claim;
+            DataActivationOutput {
+                unverified_space: unverified_space.clone(),
+                verified_space: declared_verified,""", expect=r'verified-space-from-registry'),
+ dict(id='C10-term-decrease-allowed', pid='C10', file='actors/verifreg/src/lib.rs',
+      old="""                    if term.term_max < claim.term_max {
+                        batch_gen.add_fail(ExitCode::USR_ILLEGAL_ARGUMENT);
+                        info!(
+                            "term_max {} for claim {} is less than current {}",
+                            term.term_max, term.claim_id, claim.term_max,
+                        );
+                        continue;
+                    }
+""", new="""""", expect=r'extend-terms:no-decrease'),
+ dict(id='C10-drop-anytime', pid='C10', file='actors/miner/src/lib.rs',
+      old="""        if dropping_claims && sector.expiration - curr_epoch > policy.end_of_life_claim_drop_period
+        {""", new="""        if dropping_claims && sector.expiration - curr_epoch > policy.max_sector_expiration_extension
+        {""", expect=r'extend:drop-only-at-end-of-life'),
+ dict(id='C10-foreign-claim-accepted', pid='C10', file='actors/miner/src/lib.rs',
+      old="""                if claim.sector != sc.sector_number {""", new="""                if claim.sector != sc.sector_number && claim.sector != 0 {""", expect=None),
+ # ---------------- C05
+ dict(id='C05-cron-propagates-entry-failure', pid='C05', file='actors/cron/src/lib.rs',
+      old="""            if let Err(e) = res {
+                log::error!(
+                    "cron failed to send entry to {}, send error code {}",
+                    entry.receiver,
+                    e
+                );
+            }""", new="""            res?;""", expect=r'cron'),
+ dict(id='C05-no-reenrol', pid='C05', file='actors/miner/src/lib.rs',
+      old="""        let new_deadline_info = state.deadline_info(rt.policy(), curr_epoch + 1);""",
+      new="""        let new_deadline_info = state.deadline_info(rt.policy(), curr_epoch);""", expect=r'deadline:next-deadline-last-epoch'),
+ dict(id='C05-market-error-always-swallowed', pid='C05', file='actors/miner/src/lib.rs',
+      old="""        if rt.message().origin() == SYSTEM_ACTOR_ADDR {
+            if let Err(e) = res {
+                error!("OnSectorsTerminate event failed from cron caller {}", e)
+            }
+        } else {
+            res?;
+        }""", new="""        if let Err(e) = res {
+            error!("OnSectorsTerminate event failed {}", e)
+        }""", expect=r'market-failure-swallowed'),
+ dict(id='C05-send-result-dropped', pid='C05', file='actors/miner/src/lib.rs',
+      old="""    burn_funds(rt, penalty_total)?;
+    // Update the total locked funds in the network.
+    notify_pledge_changed(rt, &pledge_delta_total)?;""",
+      new="""    burn_funds(rt, penalty_total)?;
+    // Update the total locked funds in the network.
+    let _ = notify_pledge_changed(rt, &pledge_delta_total);""", expect=None),
+ # ---------------- C02
+ dict(id='C02-power-at-precommit', pid='C02', file='actors/miner/src/lib.rs',
+      old="""        burn_funds(rt, fee_to_burn)?;
+        let state: State = rt.state()?;
+        state.check_balance_invariants(&rt.current_balance()).map_err(balance_invariants_broken)?;
+        if needs_cron {""", new="""        burn_funds(rt, fee_to_burn)?;
+        request_update_power(rt, PowerPair::zero())?;
+        let state: State = rt.state()?;
+        state.check_balance_invariants(&rt.current_balance()).map_err(balance_invariants_broken)?;
+        if needs_cron {""", expect=r'no-power-change:PreCommitSectorBatch2|callers:request_update_power'),
+ dict(id='C02-claim-keyed-by-param', pid='C02', file='actors/power/src/state.rs',
+      old="""        let new_claim = Claim {
+            raw_byte_power: old_claim.raw_byte_power.clone() + power,
+            quality_adj_power: old_claim.quality_adj_power.clone() + qa_power,""",
+      new="""        let new_claim = Claim {
+            raw_byte_power: old_claim.raw_byte_power.clone() + power,
+            quality_adj_power: old_claim.quality_adj_power.clone() + power,""", expect=r'power:new-qa'),
+ dict(id='C02-negative-claim-allowed', pid='C02', file='actors/power/src/state.rs',
+      old="""        if new_claim.quality_adj_power.is_negative() {
+            return Err(actor_error!(
+                illegal_state,
+                "negative claimed quality adjusted power: {}",
+                new_claim.quality_adj_power
+            ));
+        }
+""", new="""""", expect=r'power:qa-non-negative'),
+ # ---------------- C04
+ dict(id='C04-ni-allows-collisions', pid='C04', file='actors/miner/src/lib.rs',
+      old="""            state.allocate_sector_numbers(
+                store,
+                &sector_numbers,
+                CollisionPolicy::DenyCollisions,
+            )?;""", new="""            state.allocate_sector_numbers(
+                store,
+                &sector_numbers,
+                CollisionPolicy::AllowCollisions,
+            )?;""", expect=r'allocate:policy'),
+ dict(id='C04-validate-dropped', pid='C04', file='actors/miner/src/partition_state.rs',
+      old="""        // check invariants
+        self.validate_state()?;
+
+        // No change to faults, recoveries, or terminations.
+        // No change to faulty or recovering power.
+        Ok((power, daily_fee))""", new="""        // No change to faults, recoveries, or terminations.
+        // No change to faulty or recovering power.
+        Ok((power, daily_fee))""", expect=r'partition-revalidated'),
+ # ---------------- C01
+ dict(id='C01-invariant-check-dropped', pid='C01', file='actors/miner/src/lib.rs',
+      old="""        notify_pledge_changed(rt, &total_unlocked.neg())?;
+        burn_funds(rt, burn_amount)?;
+
+        state.check_balance_invariants(&rt.current_balance()).map_err(balance_invariants_broken)?;
+        Ok(())
+    }""", new="""        notify_pledge_changed(rt, &total_unlocked.neg())?;
+        burn_funds(rt, burn_amount)?;
+        let _ = state;
+        Ok(())
+    }""", expect=r'solvency:RepayDebt'),
+ dict(id='C01-new-value-send', pid='C01', file='actors/miner/src/lib.rs',
+      old="""        rt.validate_immediate_caller_accept_any()?;
+        let state: State = rt.state()?;
+        let peer_id = get_miner_info(rt.store(), &state)?.peer_id;""",
+      new="""        rt.validate_immediate_caller_accept_any()?;
+        let state: State = rt.state()?;
+        extract_send_result(rt.send_simple(&rt.message().caller(), METHOD_SEND, None, state.fee_debt.clone()))?;
+        let peer_id = get_miner_info(rt.store(), &state)?.peer_id;""", expect=r'value-send:'),
+ dict(id='C01-reward-cap-removed', pid='C01', file='actors/reward/src/lib.rs',
+      old="""        if total_reward > prior_balance {
+            return Err(actor_error!(
+                illegal_state,
+                "reward {} exceeds balance {}",
+                total_reward,
+                prior_balance
+            ));
+        }
+""", new="""""", expect=r'reward:payout<=prior-balance'),
 ]
